@@ -502,12 +502,18 @@ var docFaultOps = []docFaultOp{
 		return false
 	}},
 	{"variable-in-incompatible-position", "VariablesInAllowedPosition", func(t *rapid.T, td *TypedDoc, s *ref.Schema) bool {
-		if len(td.Uses) == 0 {
+		var typed []VarUse
+		for _, u := range td.Uses {
+			if !u.Untyped { // (inside a custom-scalar literal no type is expected: nothing to be incompatible with)
+				typed = append(typed, u)
+			}
+		}
+		if len(typed) == 0 {
 			return false
 		}
-		u := td.Uses[pickN(t, "use", len(td.Uses))]
+		u := typed[pickN(t, "use", len(typed))]
 		name := u.Value.Raw
-		how := rapid.IntRange(0, 2).Draw(t, "how")
+		how := rapid.IntRange(0, 3).Draw(t, "how")
 		changed := false
 		for _, op := range td.Doc.Ops {
 			for _, v := range op.Vars {
@@ -515,6 +521,18 @@ var docFaultOps = []docFaultOp{
 					continue
 				}
 				switch how {
+				case 3: // nullable at an inner level (list item or inner list) where the position is non-null there
+					v.Type = cloneType(v.Type)
+					var cands []*ref.Type
+					for lt, vt := u.Loc.Elem, v.Type.Elem; lt != nil && vt != nil; lt, vt = lt.Elem, vt.Elem {
+						if lt.NonNull && vt.NonNull {
+							cands = append(cands, vt)
+						}
+					}
+					if len(cands) == 0 {
+						return changed
+					}
+					cands[pickN(t, "level", len(cands))].NonNull = false
 				case 0: // list depth
 					v.Type = &ref.Type{Elem: cloneType(v.Type)}
 					v.Default = nil
